@@ -168,7 +168,13 @@ impl ast::Visit for Visitor<'_, '_> {
             ast::StmtKind::Block { .. } => ast::walk_stmt(self, stmt),
             ast::StmtKind::InterruptLabel { .. } => {},
             ast::StmtKind::AbsTimeLabel { .. } => {},
-            ast::StmtKind::RelTimeLabel { .. } => {},
+            ast::StmtKind::RelTimeLabel { delta, .. } => {
+                let result = self.check_expr_as_value(delta, delta.span)
+                    .and_then(|ty| self.require_int(ty, delta.span, delta.span));
+                if let Err(e) = result {
+                    self.errors.set(e);
+                }
+            },
             ast::StmtKind::Label { .. } => {},
             ast::StmtKind::ScopeEnd { .. } => {},
             ast::StmtKind::NoInstruction { .. } => {},
